@@ -159,47 +159,47 @@ macro_rules! combine_impls {
                                             }
                                             Message::Pull => {
                                                 $(
-                                                    let source_talkback =
-                                                        source_talkbacks.$idx.load();
-                                                    let source_talkback = source_talkback
-                                                        .as_ref()
-                                                        .expect("source talkback not set");
-                                                    call!(
-                                                        source_talkback,
-                                                        Message::Pull,
-                                                        "to source {i}: {message:?}",
-                                                        i = $idx,
-                                                    );
+                                                    // a member that has ended by itself is not talked to any more
+                                                    if let Some(source_talkback) =
+                                                        &*source_talkbacks.$idx.load()
+                                                    {
+                                                        call!(
+                                                            source_talkback,
+                                                            Message::Pull,
+                                                            "to source {i}: {message:?}",
+                                                            i = $idx,
+                                                        );
+                                                    }
                                                 )+
                                             }
                                             Message::Error(ref error) => {
                                                 $(
-                                                    let source_talkback =
-                                                        source_talkbacks.$idx.load();
-                                                    let source_talkback = source_talkback
-                                                        .as_ref()
-                                                        .expect("source talkback not set");
-                                                    call!(
-                                                        source_talkback,
-                                                        Message::Error(Arc::clone(error)),
-                                                        "to source {i}: {message:?}",
-                                                        i = $idx,
-                                                    );
+                                                    // a member that has ended by itself is not talked to any more
+                                                    if let Some(source_talkback) =
+                                                        &*source_talkbacks.$idx.load()
+                                                    {
+                                                        call!(
+                                                            source_talkback,
+                                                            Message::Error(Arc::clone(error)),
+                                                            "to source {i}: {message:?}",
+                                                            i = $idx,
+                                                        );
+                                                    }
                                                 )+
                                             }
                                             Message::Terminate => {
                                                 $(
-                                                    let source_talkback =
-                                                        source_talkbacks.$idx.load();
-                                                    let source_talkback = source_talkback
-                                                        .as_ref()
-                                                        .expect("source talkback not set");
-                                                    call!(
-                                                        source_talkback,
-                                                        Message::Terminate,
-                                                        "to source {i}: {message:?}",
-                                                        i = $idx,
-                                                    );
+                                                    // a member that has ended by itself is not talked to any more
+                                                    if let Some(source_talkback) =
+                                                        &*source_talkbacks.$idx.load()
+                                                    {
+                                                        call!(
+                                                            source_talkback,
+                                                            Message::Terminate,
+                                                            "to source {i}: {message:?}",
+                                                            i = $idx,
+                                                        );
+                                                    }
                                                 )+
                                             }
                                         }
@@ -279,6 +279,7 @@ macro_rules! combine_impls {
                                                         panic!("source must not pull");
                                                     }
                                                     Message::Error(_) | Message::Terminate => {
+                                                        source_talkbacks.$idx.store(None);
                                                     let n_end = n_end
                                                         .fetch_sub(1, AtomicOrdering::AcqRel)
                                                         - 1;
